@@ -3465,3 +3465,182 @@ func ruleAtUTC(w *World, r *Report) {
 		r.exempt("AT-UTC", "field=crolt.Job.at", "", "nothing stores into Job.at: shape not recognised, not decided")
 	}
 }
+
+// GATE-FAILCLOSED (C19): a key that cannot be read is not "no key".
+func ruleGateFailClosed(w *World, r *Report) {
+	r.Rule("GATE-FAILCLOSED", "the key gates fail closed: in Location.CheckWrite and CheckRead the error of the key lookup (GetPropString) is not discarded — a refusal (a non-nil error return) is control-dependent on it.  If the error is dropped, a key that cannot be read as a string (a number, a storage or purge error while reading it) counts as `no key`, and the location is unprotected although a key is stored", 2)
+	gps := w.Func("core", "GetPropString")
+	for _, name := range []string{"CheckWrite", "CheckRead"} {
+		fn := w.Method("core", "Location", name)
+		key := "gate=" + fname(fn)
+		var calls []*ssa.Call
+		allInstrs(fn, func(in ssa.Instruction) {
+			if c, ok := in.(*ssa.Call); ok && c.Common().StaticCallee() == gps {
+				calls = append(calls, c)
+			}
+		})
+		if len(calls) == 0 {
+			r.exempt("GATE-FAILCLOSED", key, w.Pos(fn.Pos()), "the gate does not call GetPropString directly: shape not recognised, not decided")
+			continue
+		}
+		ok := true
+		for _, c := range calls {
+			isErr := func(v ssa.Value) bool {
+				ex, isEx := v.(*ssa.Extract)
+				return isEx && ex.Tuple == ssa.Value(c) && ex.Index == 2
+			}
+			refusal := false
+			allInstrs(fn, func(in ssa.Instruction) {
+				ret, isRet := in.(*ssa.Return)
+				if !isRet || isSuccessReturnPS(in) {
+					return
+				}
+				_ = ret
+				if controlDependsOn(fn, in, isErr) {
+					refusal = true
+				}
+			})
+			if !refusal {
+				ok = false
+				r.violation("GATE-FAILCLOSED", key, w.PosOf(c), "the error of the key lookup is dropped: a key that cannot be read counts as no key, and the gate lets everybody through")
+			}
+		}
+		if ok {
+			r.ok("GATE-FAILCLOSED", key, w.PosOf(calls[0]), "a failed key lookup refuses")
+		}
+	}
+}
+
+// HOOK-ADD-KEEPS (C15): the add hook never leaves a rule that stays without its job.
+func ruleHookAddKeeps(w *World, r *Report) {
+	r.Rule("HOOK-ADD-KEEPS", "the add hook installed by cron.AddHooks schedules; it does not unschedule.  If the hook removes a job (Cronner.Rem) before it schedules the new one, no refusal (a non-nil error return, which makes State.Add refuse the new rule and keep the old one) is reachable after the ScheduleEvent call without the job having been scheduled again: otherwise a refused replacement leaves the old rule in the location with no job, and it never fires again", 1)
+	iface := w.Named("cron", "Cronner")
+	ah := w.Func("cron", "AddHooks")
+	n := 0
+	for _, fn := range ah.AnonFuncs {
+		isSched := func(in ssa.Instruction) bool {
+			c := callOf(in)
+			return c != nil && isIfaceMethodCall(c, iface, "ScheduleEvent")
+		}
+		isRem := func(in ssa.Instruction) bool {
+			c := callOf(in)
+			return c != nil && isIfaceMethodCall(c, iface, "Rem")
+		}
+		var scheds, rems []ssa.Instruction
+		allInstrs(fn, func(in ssa.Instruction) {
+			if isSched(in) {
+				scheds = append(scheds, in)
+			}
+			if isRem(in) {
+				rems = append(rems, in)
+			}
+		})
+		if len(scheds) == 0 {
+			continue
+		}
+		n++
+		key := "hook=" + fname(fn)
+		bad := false
+		for _, rm := range rems {
+			for _, s := range scheds {
+				if !reachable(fn, rm, s) {
+					continue
+				}
+				hit, _ := reach(fn, s, func(in ssa.Instruction) bool {
+					_, isRet := in.(*ssa.Return)
+					return isRet && !isSuccessReturnPS(in)
+				}, func(in ssa.Instruction) bool { return in != s && isSched(in) }, nil)
+				if hit != nil {
+					bad = true
+					r.violation("HOOK-ADD-KEEPS", key, w.PosOf(rm), "the add hook removes the job before scheduling; the refusal at "+w.PosOf(hit)+" is reachable after that with nothing scheduled: the rule that stays has lost its job")
+				}
+			}
+		}
+		if !bad {
+			r.ok("HOOK-ADD-KEEPS", key, w.PosOf(scheds[0]), itoa(len(rems))+" removal(s) before scheduling, none can end in a refusal")
+		}
+	}
+	if n == 0 {
+		r.exempt("HOOK-ADD-KEEPS", "hook=none", w.Pos(ah.Pos()), "no closure of AddHooks calls Cronner.ScheduleEvent: shape not recognised")
+	}
+}
+
+// CACHE-PENDING-SHARED (C17): while a system runs (CachePending is forced on), every new entry is published.
+func ruleCachePendingShared(w *World, r *Report) {
+	r.Rule("CACHE-PENDING-SHARED", "premise: sys.NewSystem forces SystemControl.CachePending on (checked: a store of `true` into the field).  Conclusion: in CachedLocations.Open, with the `CachePending is false` edges deleted, every path from the allocation of a new entry to the release of the table lock passes the store of that entry into `locs` — for every TTL, including `never`.  An entry that is not published is not shared: N concurrent first requests then load the location N times and work on N instances", 1)
+	// premise
+	ns := w.Func("sys", "NewSystem")
+	forced := false
+	allInstrs(ns, func(in ssa.Instruction) {
+		if st, ok := in.(*ssa.Store); ok {
+			if n, f, _, ok := fieldOf(st.Addr); ok && typeKey(n) == "sys.SystemControl" && f == "CachePending" {
+				if b, isC := isConstBool(st.Val); isC && b {
+					forced = true
+				}
+			}
+		}
+	})
+	fn := w.Method("sys", "CachedLocations", "Open")
+	key := "fn=" + fname(fn)
+	if !forced {
+		r.exempt("CACHE-PENDING-SHARED", key, w.Pos(ns.Pos()), "premise fails: NewSystem no longer forces CachePending on; not decided by this rule")
+		return
+	}
+	isLocs := func(v ssa.Value) bool {
+		n, f, _, ok := loadedField(v)
+		return ok && typeKey(n) == "sys.CachedLocations" && f == "locs"
+	}
+	del := map[bedge]bool{}
+	for _, b := range fn.Blocks {
+		if len(b.Instrs) == 0 {
+			continue
+		}
+		ifi, ok := b.Instrs[len(b.Instrs)-1].(*ssa.If)
+		if !ok {
+			continue
+		}
+		ct, ok := decodeIf(ifi)
+		if !ok {
+			continue
+		}
+		n, f, _, ok := loadedField(resolveSpill(ct.V))
+		if !ok || typeKey(n) != "sys.SystemControl" || f != "CachePending" {
+			continue
+		}
+		if ct.TrueWhen == "true" {
+			del[bedge{b, 1}] = true
+		} else if ct.TrueWhen == "false" {
+			del[bedge{b, 0}] = true
+		}
+	}
+	var allocs []ssa.Instruction
+	allInstrs(fn, func(in ssa.Instruction) {
+		if a, ok := in.(*ssa.Alloc); ok && a.Heap && typeKey(namedOf(a.Type().(*types.Pointer).Elem())) == "sys.CachedLocation" {
+			allocs = append(allocs, in)
+		}
+	})
+	if len(allocs) == 0 {
+		r.exempt("CACHE-PENDING-SHARED", key, w.Pos(fn.Pos()), "Open allocates no entry: shape not recognised, not decided")
+		return
+	}
+	for _, a := range allocs {
+		av := a.(ssa.Value)
+		isPub := func(in ssa.Instruction) bool {
+			mu, ok := in.(*ssa.MapUpdate)
+			return ok && isLocs(mu.Map) && mu.Value == av
+		}
+		isUnlock := func(in ssa.Instruction) bool {
+			c := callOf(in)
+			if c == nil {
+				return false
+			}
+			o := calleeObj(c)
+			return o != nil && o.Name() == "Unlock"
+		}
+		if h, _ := reach(fn, a, isUnlock, isPub, edgeFilterOf(del)); h != nil {
+			r.violation("CACHE-PENDING-SHARED", key, w.PosOf(h), "the table lock is released with the new entry ("+w.PosOf(a)+") not in the table although CachePending is on: concurrent first requests each load the location")
+			return
+		}
+	}
+	r.ok("CACHE-PENDING-SHARED", key, w.PosOf(allocs[0]), "every new entry is in the table before the table lock is released (CachePending on)")
+}
